@@ -852,6 +852,7 @@ func (p *Parser) Parse() (Statement, error) {
 		orderStmt   *OrderStmt   = nil
 		groupByStmt *GroupByStmt = nil
 		err         error
+		fieldsErr   error
 		wherePos    int
 	)
 
@@ -869,6 +870,21 @@ func (p *Parser) Parse() (Statement, error) {
 		err = selectStmt.checkFieldNameCycle()
 		if err != nil {
 			return nil, err
+		}
+		// Resolve the field names used inside the select fields first, the
+		// type of a field built from another named field is only known then
+		// and the where, group by and order by clauses depend on it
+		// (an error in a select field is still reported after the errors of
+		// the other clauses, together with the statement)
+		fieldsErr = selectStmt.ValidateFields(&CheckCtx{
+			Fields:     selectStmt.Fields,
+			FieldNames: selectStmt.FieldNames,
+			FieldTypes: selectStmt.FieldTypes,
+		})
+		if fieldsErr == nil && len(selectStmt.FieldTypes) == len(selectStmt.Fields) {
+			for i, field := range selectStmt.Fields {
+				selectStmt.FieldTypes[i] = field.ReturnType()
+			}
 		}
 		if p.tok != nil {
 			wherePos = p.tok.Pos
@@ -966,13 +982,5 @@ func (p *Parser) Parse() (Statement, error) {
 	selectStmt.Limit = limitStmt
 	selectStmt.Order = orderStmt
 	selectStmt.GroupBy = groupByStmt
-	err = selectStmt.ValidateFields(checkCtx)
-	if err == nil && len(selectStmt.FieldTypes) == len(selectStmt.Fields) {
-		// The field types were taken before the field names inside the
-		// expressions are resolved, v + 'x' is a string only now
-		for i, field := range selectStmt.Fields {
-			selectStmt.FieldTypes[i] = field.ReturnType()
-		}
-	}
-	return selectStmt, err
+	return selectStmt, fieldsErr
 }
